@@ -11,6 +11,7 @@ import GA.Drv.CmpE
 import GA.Drv.FillE
 import GA.Drv.ArrE
 import GA.Drv.ConstE
+import GA.Drv.TypesE
 open GA.Drv
 
 def answerLine (line : String) : String :=
@@ -34,6 +35,7 @@ def answerLine (line : String) : String :=
       | "arrmac" => ArrE.answer kv
       | "arrconst" => ArrE.answer kv
       | "constapi" => ConstE.answer kv
+      | "types" => TypesE.answer kv
       | _ => "bad-engine"
     s!"{seq} {body}"
   | _ => "bad-line"
